@@ -109,6 +109,22 @@ structure MwbState where
   borrows : List (Nat × List Nat)
   diags : List Diag
 
+/-- one dependency of the node `n` in the second traversal of `move_while_borrowed`: `acc` = the graph, the diagnostics and
+    the clones inserted so far (clone node, cloned value). -/
+def mwbEdge (g : Graph) (n : Nat) (immNow later : List Nat) (acc : Graph × List Diag × List (Nat × Nat)) (e : Edge) :
+    Graph × List Diag × List (Nat × Nat) :=
+  let contended := immNow.contains e.src || later.contains e.src
+  match e.kind with
+  | .move =>
+    if !contended then acc
+    else if (g.node e.src).copy then acc
+    else if (g.node e.src).cloneable then
+      let (g', c) := insertClone acc.1 e.src n
+      (g', acc.2.1, acc.2.2 ++ [(c, e.src)])
+    else (acc.1, acc.2.1 ++ [⟨.moveWhileBorrowed, e.src⟩], acc.2.2)
+  | .excl => if contended then (acc.1, acc.2.1 ++ [⟨.mutWhileBorrowed, e.src⟩], acc.2.2) else acc
+  | _ => acc
+
 /-- one node of the second traversal of `move_while_borrowed`. -/
 def mwbNode (cap : List (Nat × List Nat)) (st : MwbState) (n : Nat) : MwbState :=
   let g := st.g
@@ -118,18 +134,7 @@ def mwbNode (cap : List (Nat × List Nat)) (st : MwbState) (n : Nat) : MwbState 
     let acc := union acc (lookup cap e.src)
     if e.kind == .shared then union acc [e.src] else acc) []
   let mutNow := (ins.filter (·.kind == .excl)).map (·.src)
-  let r := ins.foldl (fun (acc : Graph × List Diag × List (Nat × Nat)) e =>
-    let contended := immNow.contains e.src || later.contains e.src
-    match e.kind with
-    | .move =>
-      if !contended then acc
-      else if (g.node e.src).copy then acc
-      else if (g.node e.src).cloneable then
-        let (g', c) := insertClone acc.1 e.src n
-        (g', acc.2.1, acc.2.2 ++ [(c, e.src)])
-      else (acc.1, acc.2.1 ++ [⟨.moveWhileBorrowed, e.src⟩], acc.2.2)
-    | .excl => if contended then (acc.1, acc.2.1 ++ [⟨.mutWhileBorrowed, e.src⟩], acc.2.2) else acc
-    | _ => acc) (g, st.diags, [])
+  let r := ins.foldl (mwbEdge g n immNow later) (g, st.diags, [])
   let borrowed := union (union immNow mutNow) later
   let borrows := r.2.2.foldl (fun b (c, d) => setKey b c (union borrowed [d])) st.borrows
   ⟨r.1, setKey borrows n borrowed, r.2.1⟩
